@@ -354,13 +354,28 @@ def flatFunc (cf : Cfg V) (fs : FS) (f : PV.Src.Func V) : Option (FS × CStmt V)
     | _ => code
   pure (fs2, seqAll (pro ++ code'))
 
-/-- the whole program: (main, procedures in emission order).  Procedures: the called functions, sorted by name, each a leaf. -/
-def flatten (cf : Cfg V) (p : PV.Src.Program V) : Option (CStmt V × List (CStmt V)) := do
-  let called := (callsB p.main ++ (p.funcs.map (fun f => callsB f.body)).flatten).eraseDups
+/-- rank of a function in the call graph: 0 for a leaf, 1 + the largest rank of a callee otherwise; `none` when the fuel runs out
+    (recursion) or a callee does not exist -/
+def rankOf (funcs : List (PV.Src.Func V)) : Nat → String → Option Nat
+  | 0, _ => none
+  | fuel + 1, name => do
+    let f ← funcs.find? (·.name == name)
+    let callees := (callsB f.body).eraseDups
+    let rs ← callees.mapM (rankOf funcs fuel)
+    pure (match rs.foldl max 0, callees.isEmpty with
+      | _, true => 0
+      | m, false => m + 1)
+
+/-- the whole program: (main, procedures in emission order, their ranks).  Procedures: the called functions, sorted by name;
+    calls among them must not be recursive. -/
+def flatten (cf : Cfg V) (p : PV.Src.Program V) : Option (CStmt V × List (CStmt V) × List Nat) := do
+  -- the functions reachable from the main code (only those are emitted)
+  let grow := fun (acc : List String) =>
+    (acc ++ ((p.funcs.filter (fun f => acc.contains f.name)).map (fun f => callsB f.body)).flatten).eraseDups
+  let called := (List.range (p.funcs.length + 1)).foldl (fun acc _ => grow acc) (callsB p.main).eraseDups
   let fsorted := (p.funcs.filter (fun f => called.contains f.name)).toArray.qsort (fun a b => a.name < b.name) |>.toList
-  -- every called function must exist and call nothing itself (leaf)
   if !(called.all (fun n => p.funcs.any (·.name == n))) then none else
-  if fsorted.any (fun f => !(callsB f.body).isEmpty) then none else
+  let ranks ← fsorted.mapM (fun f => rankOf p.funcs (p.funcs.length + 1) f.name)
   let infos := fsorted.zipIdx.map (fun (f, i) => ({ name := f.name, idx := i, params := f.params, returns := returnsB f.body } : FInfo))
   let asg := assignedB p.main ++ (p.funcs.map (fun f => assignedB f.body)).flatten
   let once := asg.filter (fun x => asg.count x == 1)
@@ -368,7 +383,7 @@ def flatten (cf : Cfg V) (p : PV.Src.Program V) : Option (CStmt V × List (CStmt
   let (_, procs) ← fsorted.foldlM (fun (acc : FS × List (CStmt V)) f => do
     let (fsx, b) ← flatFunc cf acc.1 f
     pure (fsx, acc.2 ++ [b])) (fs1, [])
-  pure (seqAll mainCode, procs)
+  pure (seqAll mainCode, procs, ranks)
 
 /-! ### canonical form for comparison: registers renamed by first occurrence -/
 
